@@ -651,5 +651,6 @@ def jobs(tier):
 
 
 def main(report, tier):
-    results = runner.run_tasks(jobs(tier))
+    from . import mnode
+    results = runner.run_tasks(jobs(tier) + mnode.jobs_for('C01', tier))
     return summarize(report, results, 'C01')
